@@ -4,5 +4,6 @@ C06Cfgs == { [nsrv |-> 1, tries |-> 2, timeout |-> 1000, seed |-> 1],
              [nsrv |-> 2, tries |-> 2, timeout |-> 400, maxtimeout |-> 600, seed |-> 2],
              [nsrv |-> 3, tries |-> 1, timeout |-> 2000, seed |-> 3, rotate |-> 1],
              [nsrv |-> 1, tries |-> 2, timeout |-> 3000, maxtimeout |-> 1000, seed |-> 5],
+             [nsrv |-> 1, tries |-> 3, timeout |-> 100, maxtimeout |-> 150, seed |-> 6],
              [nsrv |-> 2, tries |-> 3, timeout |-> 100, seed |-> 4, edns |-> 1, retrychance |-> 1, retrydelay |-> 0] }
 =============================================================================
